@@ -36,7 +36,7 @@ def pack_events(events, widths, big, datatype='I'):
 def build(version='FCS3.0', pairs=(), data=b'', delim='/', supp_pairs=None, analysis_pairs=None,
           offsets_in='header', end_conv='last', pad_text=0, pad_data=0, pad_tail=0,
           analysis_in='header', supp_lead=True, trailing_text='', raw_text=None, raw_supp=None,
-          raw_analysis=None, analysis_lead=True, offset_style='zero', stext_first=False, stext_last=False):
+          raw_analysis=None, analysis_lead=True, offset_style='zero', stext_first=False, stext_last=False, empty_stext=False):
     """Assemble HEADER + TEXT + [sTEXT] + DATA + [ANALYSIS].  pairs must NOT contain the offset
     keywords ($BEGINDATA ...); they are added here for 3.x with fixed-width values.
     Returns (bytes, layout dict)."""
@@ -84,6 +84,10 @@ def build(version='FCS3.0', pairs=(), data=b'', delim='/', supp_pairs=None, anal
         sb = pos
         se = pos + len(stext.encode(ENC)) - 1
         pos = se + 1
+    elif empty_stext and v3:
+        # an EMPTY supplemental segment declared the way a writer computing end = begin + length - 1 does it:
+        # non-zero offsets, zero length
+        sb, se = pos, pos - 1
     pos += pad_data
     db = pos
     de_last = db + len(data) - 1
@@ -119,7 +123,7 @@ def build(version='FCS3.0', pairs=(), data=b'', delim='/', supp_pairs=None, anal
     if pre is not None:
         out += pre.encode(ENC)
     out += text
-    if sb and pre is None and not last:
+    if sb and pre is None and not last and stext:
         out += stext.encode(ENC)
     out += b'\x00' * pad_data
     assert len(out) == db, (len(out), db)
@@ -168,7 +172,7 @@ def write_sample(path, events, names, ranges, bits=16, datatype='I', big=False, 
     if datatype == 'D':
         widths = [64] * D
     build_kw = {k: kw.pop(k) for k in list(kw) if k in ('delim', 'supp_pairs', 'analysis_pairs', 'offsets_in',
-                                                      'end_conv', 'pad_text', 'pad_data', 'pad_tail')}
+                                                      'end_conv', 'pad_text', 'pad_data', 'pad_tail', 'stext_first', 'stext_last', 'supp_lead')}
     ps = sample_pairs(len(events), names, widths, ranges, datatype=datatype, big=big, **kw)
     data = pack_events(events, widths, big, datatype)
     b, lay = build(version=version, pairs=ps, data=data, **build_kw)
